@@ -163,6 +163,10 @@ func Window(b *Boundary, ops []prog.Op) string {
 		return "compaction-install"
 	case names.IsTable(p):
 		return "flush"
+	case p != "" && !names.IsWal(p):
+		// anything else below the root that is neither the log nor a compaction directory: a table being built under
+		// another name (a flush that writes to a working directory and renames it, say)
+		return "flush"
 	case names.IsWal(p) && (b.Last.Op == "create" || b.Last.Op == "unlink" || b.Last.Op == "mkdir" || b.Last.Op == "rmdir"):
 		return "wal-rotation"
 	case names.IsWal(p):
